@@ -160,6 +160,13 @@ package document
 //@ ensures forall t *Table :: !isElem(t) && t != table ==> t.Rows == old(t.Rows)
 //@ ensures forall r *TableRow :: !isElem(r) && allocated(r) ==> r.Cells == old(r.Cells)
 //@ ensures forall p *Paragraph :: !isElem(p) && allocated(p) ==> p.Runs == old(p.Runs)
+// C18 ("leaves everything else as it was"), variable pass on a table incl. loop-row expansion and nested tables (checked with
+// C17): spelled-out consequences of the frame (only Table.Rows, TableRow.* and Paragraph.Runs may differ on existing objects):
+// table properties and grid, every existing cell (cell properties, its paragraph LIST and nested-table LIST), the properties
+// of every existing paragraph, and every existing run object (text, formatting, breaks, drawings) are not written.
+//@ ensures table.Properties == old(table.Properties) && table.Grid == old(table.Grid)
+//@ ensures forall c *TableCell :: allocated(c) ==> unchangedStruct(c)
+//@ ensures forall p *Paragraph :: allocated(p) ==> p.Properties == old(p.Properties)
 //@ loop 1
 //@   invariant unchangedBelow(B) && closedAbove(B) && tableRoot(table, B)
 //@   invariant forall t *Table :: !isElem(t) && t != table ==> t.Rows == old(t.Rows)
@@ -630,7 +637,8 @@ package document
 // baseDocOK: what every document built by New/Open/the Add* API satisfies and cloneDocument relies on.
 //@ spec baseDocOK(d *Document) bool = d.Body != nil && elemsOK(d.Body.Elements) && sectRefsOK(d.Body.Elements) && mediaFresh(d) && d.nextImageID >= 0
 // cacheOK: the cache holds no nil template (LoadTemplate/LoadTemplateFromDocument store the template they built).
-//@ spec cacheOK(te *TemplateEngine) bool = forall k string :: has(te.cache, k) ==> te.cache[k] != nil && (te.cache[k].BaseDoc != nil ==> baseDocOK(te.cache[k].BaseDoc))
+// ... and the parent chain of every cached template is ordered by allocation (chainOlder, zz_contracts_verif_template.go).
+//@ spec cacheOK(te *TemplateEngine) bool = forall k string :: has(te.cache, k) ==> te.cache[k] != nil && (te.cache[k].BaseDoc != nil ==> baseDocOK(te.cache[k].BaseDoc)) && chainOlder(te.cache[k])
 
 // RenderTemplateToDocument / RenderToDocument: NOTHING that existed before the call is written - not the engine
 // and its cache, not the template, its blocks, its parents, not the base document (body, paragraphs, tables,
